@@ -43,7 +43,7 @@ def register(reg):
       'not_decided': ['everything quantified over thread schedules (no deadlock, no lost wake-up, blocked reads returning by their timeout): '
                       'AdbStreamTransport._read_messages_until_true is not under contract; AdbConnection.read_for_stream is verified for one '
                       'caller at a time (what a call does to the stream queue, the wire and the reader lock), not for interleavings of callers',
-                      'local id allocation (_make_stream_transport: itertools.islice / chain over two ranges) is outside the subset'],
+                      ],
       'bounded': [],
       'assumptions': ['transport.write_message / read_message follow their C13 contracts; every message written is appended to the ghost log tx.*',
                       'queue.Queue.put appends to the queue (ghost list items), get / get_nowait return items[head] and advance head, Empty iff '
@@ -51,6 +51,8 @@ def register(reg):
                       'AdbMessage.command is the inverse of the wire table',
                       'callers of transport.read_message see an abstraction of its C13 contract: a fresh message with a known command, 32-bit '
                       'arguments, intact payload',
+                      'itertools.chain / islice over integer ranges and list(dict.keys()) are modelled as symbolic integer sequences / the key set '
+                      '(trusted models of the standard library)',
                       'the device never sends READY (OKAY) with remote id 0 (protocol.txt); a PolledTimeout that has expired stays expired'],
   }
   reg.prop_meta['C14'] = meta
@@ -100,6 +102,7 @@ def register(reg):
   register_connect(reg)
   register_handshake(reg)
   register_reader(reg)
+  register_ids(reg)
 
 
 VALID_MSG = ("({k})".format(k=' or '.join("message._command == wire_command('%s')" % n for n in NAMES)) +
@@ -488,6 +491,70 @@ def register_reader(reg):
          vars={'timeout': 'ref:PolledTimeout'})
   c.loop('while not timeout.has_expired()', inv=inv, modifies=mods,
          vars={'timeout': 'ref:PolledTimeout'})
+
+
+def register_ids(reg):
+  """Local id allocation: AdbConnection._make_stream_transport and the constructor of the stream transport."""
+  from pyvc.values import VBuiltin
+  from pyvc.engine3 import VIterView
+
+  def chain(ex, st, args, kwargs):
+    ex.ctx.use_trusted('itertools.chain')
+    if not all(isinstance(a, VIterView) and a.how == 'intseq' for a in args) or len(args) != 2:
+      from pyvc.values import Unsupported
+      raise Unsupported('itertools.chain over anything but two integer ranges')
+    (n1, f1), (n2, f2) = args[0].extra, args[1].extra
+    return [(st, VIterView('intseq', None, (n1 + n2, lambda i: z3.If(i < n1, f1(i), f2(i - n1)))))]
+
+  def islice(ex, st, args, kwargs):
+    ex.ctx.use_trusted('itertools.islice')
+    if not (isinstance(args[0], VIterView) and args[0].how == 'intseq') or len(args) != 2:
+      from pyvc.values import Unsupported
+      raise Unsupported('itertools.islice(seq, n) over anything but an integer sequence')
+    n, f = args[0].extra
+    k = args[1].t
+    return [(st, VIterView('intseq', None, (z3.If(n < k, n, k), f)))]
+  reg.externals['itertools.chain'] = lambda ex: VBuiltin('itertools.chain', chain)
+  reg.externals['itertools.islice'] = lambda ex: VBuiltin('itertools.islice', islice)
+
+  def mk(name, cls, init=None):
+    def impl(ex, st, args, kwargs):
+      ex.ctx.use_trusted(name)
+      o = ex.alloc(st, cls)
+      if init:
+        init(ex, st, o)
+      return [(st, o)]
+    reg.externals[name] = lambda ex: VBuiltin(name, impl)
+  mk('threading.Condition', 'condition')
+  mk('queue.Queue', 'queue', lambda ex, st, o: (ex.write_field(st, o, 'items', ex.new_list(st, [])), ex.write_field(st, o, 'head', VInt(0))))
+  reg.externals['collections.deque'] = lambda ex: VBuiltin('collections.deque', lambda ex_, st, a, k: [(st, ex_.new_list(st, []))])
+
+  c = reg.contract(P, 'AdbStreamTransport.__init__', props=['C15'], callsite=False)
+  c.param('adb_connection', 'ref:AdbConnection').param('local_id', 'int').param('message_queue', 'ref:queue')
+  c.ensures('a_new_stream_is_pending_without_a_remote_id',
+            'self.remote_id is None and self.closed_state is %s.PENDING and self.local_id == local_id and self.adb_connection is adb_connection and '
+            'self.message_queue is message_queue and self._buffer_size == 0 and len(self._read_buffer) == 0' % CS)
+  c.modifies('self.adb_connection', 'self.local_id', 'self.message_queue', 'self.remote_id', 'self.closed_state', 'self._read_buffer', 'self._buffer_size',
+             'self._read_buffer_lock', 'self._write_lock', 'self._expecting_okay', 'self._message_received', 'self._reader_lock')
+
+  smap = 'self._stream_transport_map'
+  c = reg.contract(P, 'AdbConnection._make_stream_transport', props=['C15'])
+  c.returns('ref:AdbStreamTransport')
+  c.requires('last_id_in_range', '0 <= self._last_id_used and self._last_id_used < 2**16')
+  c.ensures('a_non_zero_id_below_the_limit', '0 < result.local_id and result.local_id < 2**16')
+  c.ensures('distinct_from_every_open_stream', 'result.local_id not in old(content(%s))' % smap)
+  c.ensures('registered_under_its_id', 'result.local_id in {m} and {m}[result.local_id] is result and is_fresh(result)'.format(m=smap))
+  c.ensures('other_streams_stay_registered',
+            'forall_key(lambda k: implies(k != result.local_id, (k in {m}) == old(k in {m}) and implies(k in {m}, {m}[k] is old(content({m}))[k])))'.format(m=smap))
+  c.ensures('a_new_stream_is_pending_without_a_remote_id', 'result.remote_id is None and result.closed_state is %s.PENDING and result.adb_connection is self' % CS)
+  c.ensures('an_empty_queue_of_its_own', 'is_fresh(result.message_queue) and result.message_queue.head == 0 and len(result.message_queue.items) == 0')
+  c.ensures('remembers_the_last_id', 'self._last_id_used == result.local_id')
+  c.raises('AdbStreamUnavailableError', ensures=[('nothing_registered', 'forall_key(lambda k: (k in {m}) == old(k in {m}))'.format(m=smap))])
+  c.modifies('dict(%s)' % smap, 'self._last_id_used')
+  c.loop('for local_id in itertools.islice(itertools.chain(range(self._last_id_used, STREAM_ID_LIMIT), range(1, self._last_id_used)), 64)',
+         inv=[('probing_starts_at_a_non_zero_id_within_the_limit', '1 <= self._last_id_used and self._last_id_used <= 2**16'),
+              ('nothing_registered_yet', 'forall_key(lambda k: (k in {m}) == old(k in {m}) and implies(k in {m}, {m}[k] is old(content({m}))[k]))'.format(m=smap))],
+         modifies=[], vars={})
 
 
 def replay_close_stream_transport(model, ob):
